@@ -248,3 +248,16 @@ func ProtectResponse(cipher string, ksEnc, ksMac, ssc []byte, oddINS bool, data 
 	}
 	return s.wrap(&Command{INS: ins}, data, swv), nil
 }
+
+// AuthenticateRaw returns dos || 8E 08 MAC || SW where the MAC is the session MAC over ssc || dos: whatever data
+// objects a chip that HOLDS the session keys chooses to send, well-formed or not. Exported for the harness (a hostile
+// but authenticated counterpart: property C12).
+func AuthenticateRaw(cipher string, ksMac, ssc, dos []byte, swv uint16) ([]byte, error) {
+	macIn := append(append([]byte{}, ssc...), dos...)
+	mac, err := smMAC(CipherAlg(cipher), ksMac, macIn)
+	if err != nil {
+		return nil, err
+	}
+	out := append(append([]byte{}, dos...), EncodeTLV(0x8E, mac)...)
+	return append(out, byte(swv>>8), byte(swv)), nil
+}
